@@ -84,3 +84,6 @@ func vGCMTagOK(name string) bool
 func vIsGCMOpened(out []byte) bool
 
 func vB64Str(name string) string
+
+func vIsUnderscoreUUID(id string) bool
+func vFormatUTC(layout string, ns int64) string
